@@ -332,9 +332,15 @@ TrackOn ==
   /\ trk' = TRUE /\ Op("trackon", <<>>, <<>>)
   /\ UNCHANGED <<phase, tried, snick, nick, mem, kn, uh, jn, topic, ktopic, key, kkey, lim, klim, flags, kflags, pendMode, pendWho, pendNick, cloak>>
 
+\* the user calls Connect although the client is connected: refused, and nothing the client knows may change
+ConnectAgain ==
+  /\ phase = "up" /\ Step /\ lastOp.ev # "connectagain"
+  /\ Op("connectagain", <<>>, <<>>)
+  /\ UNCHANGED <<phase, tried, snick, nick, mem, kn, uh, jn, topic, ktopic, key, kkey, lim, klim, flags, kflags, pendMode, pendWho, pendNick, trk, cloak>>
+
 PrivSets == {{}, {"o"}, {"v"}, {"o", "v"}}
 Next ==
-  \/ Collide \/ NickConfirm \/ NickRefuse \/ TrackOff \/ TrackOn \/ Cloak
+  \/ Collide \/ NickConfirm \/ NickRefuse \/ TrackOff \/ TrackOn \/ Cloak \/ ConnectAgain
   \/ \E n \in MyNicks \cup {tried} : Welcome(n)
   \/ \E n \in MyNicks : ClientNick(n) \/ NickForce(n)
   \/ \E c \in Chans, S \in SUBSET Users : \E ps \in [S -> PrivSets] :
